@@ -38,6 +38,15 @@ def check(ctx) -> Result:
     ri_order.sample_n_outputs_pipeline(ctx, res, no)
     ri_order.refusals(ctx, res, ni, need_dark=False)
     ri_order.refusals(ctx, res, no, need_dark=True)
+    # memo tables used for herald removal are re-created whenever the configuration changes
+    from ..index import mangle
+    from ..rules.rf_cache import CacheModel
+    model = CacheModel(ctx, sam)
+    for f in (ni, no):
+        memo = {mangle("Sampler", n.value.attr) for n in walk_no_nested(f.node) if isinstance(n, ast.Subscript) and isinstance(n.value, ast.Attribute) and src(n.value.value) == "self" and isinstance(n.ctx, ast.Load)}
+        for m in sorted(memo):
+            res.add(m in model.cache_fields, "I-herald-removal-table-fresh", f"{f.qualname}:{m}", f.site(), f.qualname, "lookup table is rebuilt by the staleness-guarded refresh",
+                    f"the herald-removal lookup {m} is not re-created when the configuration (e.g. the circuit's heralds) changes: states are returned with the modes of an earlier configuration removed", construct=m)
     for f in (ni, no):
         ri_order.seeds(ctx, res, f, det)
     qn = qs.methods["sample_N_outputs"]
@@ -77,7 +86,7 @@ def check(ctx) -> Result:
         ok = len(aug) == 1 and len(st) == 1 and src(aug[0].target) in src(st[0].value) and aug[0].lineno < st[0].lineno
         res.add(ok, "I-inverse-cdf", f.qualname, f.site(), f.qualname, "cumulative value stored after adding the state's own probability", "cumulative distribution is not the inclusive running sum", construct=src(f.node)[:100])
     # visible-space results (K1 is a known finding)
-    n = rb_states.run(ctx, res, only=["Sampler.sample", "QuickSampler.sample"], rules={"B4-public-result-visible", "B1-post-selection-visible", "B3-herald-side"})
+    n = rb_states.run(ctx, res, only=["Sampler.", "QuickSampler."], rules={"B4-public-result-visible", "B1-post-selection-visible", "B3-herald-side"})
     res.floor("B4 checks", n, 6)
     ng = rg_mass.check_function(ctx, res, no)
     res.floor("G stores in sample_N_outputs", ng, 3)
